@@ -5,6 +5,10 @@ import json
 import os
 
 rows = []
+try:
+    STR = json.load(open("/verif/seeded/strengthened.json"))
+except Exception:  # noqa: BLE001
+    STR = {}
 for d in sorted(glob.glob("/verif/seeded/*/")):
     try:
         m = json.load(open(d + "meta.json"))
@@ -16,7 +20,7 @@ for d in sorted(glob.glob("/verif/seeded/*/")):
     caught = ", ".join(f"{k} (`{v['first_mechanism'][:70]}`)" for k, v in sorted(c["checks_quick"].items()) if v["exit"] == 1)
     missed = ", ".join(k for k, v in sorted(c["checks_quick"].items()) if v["exit"] != 1)
     rows.append((os.path.basename(d.rstrip("/")), ch[:230] + ("…" if len(ch) > 230 else ""), needs[:200] + ("…" if len(needs) > 200 else ""),
-                 caught or "—", missed or "—", m.get("strengthened") or ""))
+                 caught or "—", missed or "—", STR.get(os.path.basename(d.rstrip("/"))) or ""))
 print("| seeded change | what it does | needs to manifest | caught by (quick tier; first mechanism) | run but silent | check strengthened for it |")
 print("|---|---|---|---|---|---|")
 for r in rows:
